@@ -6,7 +6,7 @@ import random
 import common as C
 
 HEADER = ("From Xdis Require Import Base.Prelude Base.Result Base.LE Model.Magic Model.Load Model.LoadObs Model.WriteHeader Gen.Magics Gen.RefMagics "
-          "Spec.Registry Spec.Header Proofs.HeaderProofs Proofs.WriteProofs.")
+          "Spec.Registry Spec.Header Proofs.HeaderDefs Proofs.HeaderProofs Proofs.WriteProofs.")
 RT = os.path.join(C.VERIF, "tools/harness/roundtrip.py")
 
 
